@@ -18,7 +18,7 @@ CHECKS = {
              "only as far as the differential run shows; u32/usize widths are not modelled (indices are Nat), the u16 truncation of `elements` is (finding F18).",
     ),
     "C04": dict(
-        technique="Lean 4 proof (pack/unpack and entry-layout round trips by induction, table facts by kernel evaluation) + differential store histories vs Spec.run",
+        technique="Lean 4 proof (refinement of the abstract waveform by the store via a simulation relation, induction over all histories; pack/unpack and entry-layout round trips; table facts by kernel evaluation) + differential store histories vs Spec.run",
         text="Lean theorems: C04_pack_unpack (write_n_state then n_state_to_bit_string = id for every kind/width/value), C04_entry_roundtrip and "
              "C04_one_bit_roundtrip (entry built by the loader decodes to the symbols written for every widest-kind x local-kind combination, both meta layouts), "
              "C04_align_no_underflow, C04_leb_roundtrip, C04_char_faithful / C04_kind_independent_chars over tables regenerated from the code; STREAM level: C04_stream_fixed / _onebit / _reals / _strings "
@@ -26,13 +26,14 @@ CHECKS = {
              "C04_encoder_chunk (add_n_bit_change appends exactly such a chunk); BLOCK level: C04_block_slice (the offset table finish_block writes lets get_offset_and_length cut every signal's payload back out of the block data, for every number of signals with and without data), C04_meta_plain / C04_meta_compressed (meta word round trip), and the composition C04_single_block_load: for every block content, compression decision and list of changes, "
              "load_signal returns exactly the changes whose chunk stream the signal recorded; and C04_vcd_block_roundtrip: a fresh multi-bit signal that receives ANY sequence of VCD value tokens at non-decreasing time indices is loaded back, "
              "after finish_block, as one entry per token at its time index (end to end through add_vcd_change, finish_signal, the offset table, the meta word and load_fixed_len_signal), and C04_vcd_block_values: each of these entries decodes to the kind and the symbols of its token; C04_single_block_load_reals / _strings, C04_multi_block_load (ANY number of blocks: the loaded signal is the concatenation of the per-block changes with the time indices shifted by the earlier blocks' table lengths, aligned to the widest kind), C04_vcd_onebit_block_roundtrip (scalar tokens, compact entries) and C04_raw_block_roundtrip: the same end-to-end statement for the pre-encoded path the GHW loader uses, "
-             "with C04_compress_is_repack (compress_template = the slicing core repack, whose symbol-level meaning is C13_minimal_repack). "
+             "with C04_compress_is_repack (compress_template = the slicing core repack, whose symbol-level meaning is C13_minimal_repack); "
+             "END TO END C04_store_refines_spec: Store (encoder bookkeeping, roll-over, finish, offsets, meta, loader) = Spec.run for VCD vector signals, all histories and block sizes. "
              "The executable Lean model of Encoder/SignalEncoder/Reader (Model/Store.lean) and the abstract Spec.run are compared with the real store "
              "on generated histories covering every regime of the quantifier (widths, state orders, payload sizes around 32 bytes, 65535-multiples, splits).",
         design_ref="DESIGN.md section 5 / C04",
-        note="Proved: per-value packing, per-entry layout and the per-block signal stream (unbounded). Not proved, validated by the differential run only: the encoder side across blocks (time_change rolling the block over, per-block restart of the index deltas), append "
-             "(their streams are proved), and hence the single refinement theorem Store = Spec.run. lz4_flex is not modelled (compress = id in the model; "
-             "the compression decision is an arbitrary predicate). Trusted: Lean kernel, table translator vf/tables.py, harness, generators.",
+        note="Proved end to end (C04_store_refines_spec): for VCD vector signals of two or more bits, every history, every block size and every compression decision, the finished store has the time table of Spec.run and load_signal returns exactly Spec.run's change list "
+             "(simulation of the encoder incl. block roll-over against the specification, multi-block load, loader de-duplication = canon). Proved per block, composed across blocks by the differential run only: one-bit signals, reals, strings, the pre-encoded (GHW) write path, and Encoder::append. "
+             "lz4_flex is not modelled (compress = id in the model; the compression decision is an arbitrary predicate); the theorem assumes no block larger than 2^36 bytes (32-bit compressed-length field). Trusted: Lean kernel, table translator vf/tables.py, harness, generators.",
     ),
     "C02": dict(
         technique="Lean 4 proof (invariant by induction over operation histories, every block size) + differential store histories around 65535-multiples",
